@@ -629,8 +629,27 @@ pub fn random_composition(samples: &[Sample], rng: &mut Rng, annotate: bool) -> 
 pub fn mutate_sample(s: &Sample, rng: &mut Rng, annotate: bool) -> Program {
     let prims = ["Int", "Str", "Bool", "Float"];
     let mut text = s.text.clone();
-    let kind = rng.below(5);
+    let kind = rng.below(6);
     match kind {
+        5 => {
+            // the same program written with other white space: whatever the lexer makes of it
+            // (most are rejected), it must make the same of it every time — and must not
+            // remember it for the next input
+            let sub = rng.below(6);
+            let reindent = |l: &str, unit: &str| -> String {
+                let body = l.trim_start_matches(' ');
+                let n = l.len() - body.len();
+                format!("{}{}{}", unit.repeat(n / 4), " ".repeat(n % 4), body)
+            };
+            text = match sub {
+                0 => text.lines().map(|l| reindent(l, "  ")).collect::<Vec<_>>().join("\n") + "\n",
+                1 => text.lines().map(|l| reindent(l, "        ")).collect::<Vec<_>>().join("\n") + "\n",
+                2 => text.lines().map(|l| reindent(l, "\t")).collect::<Vec<_>>().join("\n") + "\n",
+                3 => text.lines().collect::<Vec<_>>().join("\r\n") + "\r\n",
+                4 => text.lines().map(|l| format!("{l}  ")).collect::<Vec<_>>().join("\n") + "\n",
+                _ => format!("\n\n{}", text.trim_end_matches('\n')),
+            };
+        }
         0 | 1 => {
             let from = *rng.pick(&prims);
             let mut to = *rng.pick(&prims);
